@@ -202,7 +202,13 @@ func (r *objectSetPhasesReconciler) reconcile(
 		controllerOfAll []corev1alpha1.ControlledObjectReference
 		firstFailure    controllers.ProbingResult
 	)
-	for i, phase := range objectSet.GetPhases() {
+	// Remote phases may exist from an earlier rollout that this reconcile does not reach again,
+	// because an earlier phase fails its probes or errors out: keep reporting them.
+	if err := r.observeRemotePhases(ctx, objectSet, objectSet.GetPhases()); err != nil {
+		return nil, controllers.ProbingResult{}, err
+	}
+
+	for _, phase := range objectSet.GetPhases() {
 		controllerOf, probingResult, err := r.reconcilePhase(
 			ctx, objectSet, phase, probe, previous)
 		if err != nil {
@@ -215,10 +221,6 @@ func (r *objectSetPhasesReconciler) reconcile(
 		if !probingResult.IsZero() {
 			if !objectSet.IsSpecPaused() {
 				// break on first failing probe
-				// Remote phases behind it may exist from an earlier rollout: keep reporting them.
-				if err := r.observeRemotePhases(ctx, objectSet, objectSet.GetPhases()[i+1:]); err != nil {
-					return nil, controllers.ProbingResult{}, err
-				}
 				return controllerOfAll, probingResult, nil
 			}
 
